@@ -1252,6 +1252,9 @@ func runHist(t *testing.T, seed int64, n int, out *Out) {
 				name := mods[h.r.Intn(len(mods))]
 				if fm := map[string]string{"ts.": "tradeshield", "perp.": "perpetual", "lp.": "leveragelp", "cm.": "commitment", "amm.": "amm", "ss.": "stablestake"}[h.focus]; fm != "" && h.r.Intn(2) == 0 {
 					name = fm // the module the history concentrates on
+					if fm == "amm" && h.r.Intn(2) == 0 {
+						name = "commitment" // pool shares are held by the commitment module: its export carries them
+					}
 				}
 				done := false
 				w.Seed(func(ctx sdk.Context) {
